@@ -41,7 +41,9 @@ def classify(c):
             else:
                 regs.add("btc:margin<=0-outside-known-region:C-S=%d,P-S=%d,f=%d" % (C - S, P - S, f))
     if not regs:
-        return "btc:monitor-false-without-recorded-numbers"
+        # no payment inside a bad region was recorded: the other clause of the monitor - a step moved the recorded
+        # Bitcoin starting height
+        return "btc:recorded-starting-height-moved"
     bad = sorted(r for r in regs if r not in (KNOWN_BEFORE, KNOWN_WITHIN))
     return bad[0] if bad else sorted(regs)[0]
 
